@@ -1,7 +1,7 @@
 CONSTANTS
   Max = 8
   Gaps = {6}
-  MaxLen = 6
+  MaxLen = 7
 INIT PInit
 NEXT PNext
 INVARIANT ParserAgrees
